@@ -152,3 +152,40 @@ func totalLoop(loop map[*ssa.BasicBlock]bool, isFailureReturn func(r *ssa.Return
 	}
 	return true, ""
 }
+
+// totalLoopFF: like totalLoop with "failure returns are acceptable exits", but
+// path-sensitive: an edge that leaves the loop body is acceptable when every
+// return reachable from it — following only branches that are feasible given
+// what is known on that edge — reports a failure, and the loop is not
+// re-entered. (A `break` out of an expanded helper that carries a non-nil error
+// to the caller's `if err != nil { return err }` is such an edge.)
+func totalLoopFF(ff *FuncFacts, loop map[*ssa.BasicBlock]bool) (bool, string) {
+	hdr := loopHeader(loop)
+	if hdr == nil {
+		return false, "no loop header found"
+	}
+	for b := range loop {
+		for _, s := range b.Succs {
+			if loop[s] || b == hdr {
+				continue
+			}
+			rets, stopped := ff.returnsFromEdge(b, s, loop)
+			if len(stopped) > 0 {
+				continue // back into the loop: not an exit
+			}
+			for r, st := range rets {
+				failure := false
+				for _, v := range r.Results {
+					if isErrorType(v) {
+						mn, nn := ff.errStatusIn(st, v)
+						failure = nn && !mn
+					}
+				}
+				if !failure {
+					return false, fmt.Sprintf("block %d leaves the loop body and can reach the non-failure return in block %d", b.Index, r.Block().Index)
+				}
+			}
+		}
+	}
+	return true, ""
+}
